@@ -8,7 +8,7 @@ use miniscript::iter::TreeLike as _;
 use miniscript::miniscript::types::{ExtData, Type};
 use miniscript::policy::concrete::DescriptorCtx;
 use miniscript::policy::{Concrete, Liftable};
-use miniscript::{BareCtx, Descriptor, Legacy, Miniscript, MiniscriptKey, ScriptContext, Segwitv0, Tap};
+use miniscript::{BareCtx, Descriptor, Legacy, Miniscript, ScriptContext, Segwitv0, Tap};
 
 use super::c02::search_cfg;
 use super::c07::world_lookup;
@@ -21,6 +21,17 @@ use crate::refvm::vm::Flags;
 use crate::satcase::{make_assets, party_alphabet, satisfier, subsets, DescCase, DescKind};
 use crate::target::{search_target, Target};
 use crate::world::{Dk, Spend, World};
+
+/// A compiler panic returns nothing, so C08 (a statement about what the compiler returns) is
+/// not violated by it; C11 runs the same policies through the same entry points and judges it.
+/// With `C11` as the reporting property the same code raises the violation.
+fn compile_panicked(rep: &mut Report, case: u64, name: &str, m: &str, pstr: &str) {
+    if rep.cfg.prop == "C11" {
+        rep.violation(case, format!("C11:panic:policy-{}:{}", name, norm_loc(&last_panic_loc())), format!("compile panicked ({}) on {}", m, pstr));
+    } else {
+        rep.count("compile-panicked(judged-by-C11)");
+    }
+}
 
 fn to_pol_abs(s: &str) -> Result<Pol, String> {
     let (k, h) = abstract_lookup();
@@ -53,7 +64,8 @@ fn equivalent(a: &Pol, b: &Pol) -> Option<Vec<Atom>> {
 fn judge_ms<Ctx: ScriptContext>(rep: &mut Report, case: u64, cx: Cx, p: &Pol, pstr: &str, ms: &Miniscript<String, Ctx>, how: &str) {
     let out = ms.to_string();
     rep.nontrivial(&format!("{}|{}|{}", how, pstr, out));
-    // (1) meaning
+    // (1) meaning (for tap leaves the meaning is judged on the whole descriptor)
+    if how != "tr-leaf-structure" {
     match guarded(std::panic::AssertUnwindSafe(|| ms.lift().map(|l| l.to_string()))) {
         Ok(Ok(ls)) => match to_pol_abs(&ls) {
             Ok(lp) => match equivalent(p, &lp) {
@@ -68,6 +80,7 @@ fn judge_ms<Ctx: ScriptContext>(rep: &mut Report, case: u64, cx: Cx, p: &Pol, ps
         },
         Ok(Err(e)) => rep.violation(case, format!("C08:output-not-liftable:{}", how), format!("policy {} compiled to {} which cannot be lifted: {}", pstr, out, e)),
         Err(m) => rep.violation(case, format!("C08:panic:lift:{}", norm_loc(&last_panic_loc())), format!("{} on {}", m, out)),
+    }
     }
     // (2) signature on every path, non-malleable; (3) sane and re-parseable
     if !ms.ty.mall.signed {
@@ -234,7 +247,7 @@ pub fn run(cfg: &RunCfg, rep: &mut Report) {
                         judge_ms::<$ctx>(rep, i, $cx, &p, &pstr, &ms, $name);
                     }
                     Ok(Err(_)) => rep.count(concat!("refused:", $name)),
-                    Err(m) => rep.violation(i, format!("C08:panic:{}:{}", $name, norm_loc(&last_panic_loc())), format!("compile panicked ({}) on {}", m, pstr)),
+                    Err(m) => compile_panicked(rep, i, $name, &m, &pstr),
                 }
             }};
         }
@@ -298,7 +311,7 @@ pub fn run(cfg: &RunCfg, rep: &mut Report) {
                     }
                 }
                 Ok(Err(_)) => rep.count(&format!("refused:{}", name)),
-                Err(m) => rep.violation(i, format!("C08:panic:{}:{}", name, norm_loc(&last_panic_loc())), format!("compile panicked ({}) on {}", m, pstr)),
+                Err(m) => compile_panicked(rep, i, name, &m, &pstr),
             }
         }
         // ground truth in the VM on a sample: real keys, wsh and tr
@@ -306,7 +319,6 @@ pub fn run(cfg: &RunCfg, rep: &mut Report) {
             vm_sample(rep, i, &world, &p, &mut rng, cfg.tier);
         }
     }
-    let _: Option<&dyn MiniscriptKey> = None::<&String>.map(|x| x as &dyn MiniscriptKey);
     if rep.samples.is_empty() {
         rep.sample("(see counters)".into());
     }
@@ -314,6 +326,9 @@ pub fn run(cfg: &RunCfg, rep: &mut Report) {
 
 /// Compile with real keys and compare the POLICY's truth value with the existence of a witness.
 fn vm_sample(rep: &mut Report, case: u64, world: &World, p: &Pol, rng: &mut Rng, tier: Tier) {
+    if p.atoms().contains(&Atom::Key(7)) {
+        return; // world key 7 serves as the unspendable internal key
+    }
     let tap = rng.coin();
     let pstr = if tap { p.concrete(&XOnlyNames(world)) } else { p.concrete(world) };
     let conc = match guarded(|| Concrete::<Dk>::from_str(&pstr)) {
@@ -381,9 +396,10 @@ fn vm_sample(rep: &mut Report, case: u64, world: &World, p: &Pol, rng: &mut Rng,
                 }
                 rep.eval();
                 let spend = Spend::simple(bitcoin::ScriptBuf::from_bytes(target.spk.clone()), *lt, *seq);
-                let assets = make_assets(world, &spend, &target, &case_shell, *km, *pm);
+                let mut assets = make_assets(world, &spend, &target, &case_shell, *km, *pm);
+                assets.keys.remove(&7);
                 let pw = PolWorld {
-                    keys: (0..world.keys.len()).map(|id| assets.keys.contains(&id) && !(tap && id == 7 && !p.atoms().contains(&Atom::Key(7)))).collect(),
+                    keys: (0..world.keys.len()).map(|id| assets.keys.contains(&id)).collect(),
                     pre: (0..world.pre.len()).map(|id| assets.pre.contains(&id)).collect(),
                     lock_time: *lt,
                     sequence: *seq,
